@@ -131,7 +131,7 @@ def C04_offset_fetch_total_stmt : Prop :=
     (ps.map (fun p => (p.topic, p.partition))).Nodup →
     (Spec.request Spec.offsetFetchRequest).valid
       (hdr 9 1 corr cid, g, (regroup l).map (fun e => (e.1, e.2.map (·.1)))) = true →
-    isAscii g = true → (∀ e ∈ regroup l, isAscii e.1 = true) →
+    (∀ e ∈ regroup l, isAscii e.1 = true) →
     ∃ frame, encodeOffsetFetchRequest cid corr (some g) ps = .ok frame
       ∧ Monitor.C04.offsetFetch cid corr (some g) ps frame = .ok
 
@@ -141,7 +141,7 @@ def C04_offset_commit_total_stmt : Prop :=
     keyed OffsetCommitReq.topic OffsetCommitReq.partition (fun p => some (p.offset, p.timestamp, p.metadata)) ps = some l →
     (ps.map (fun p => (p.topic, p.partition))).Nodup →
     (Spec.request Spec.offsetCommitRequest).valid (hdr 8 1 corr cid, g, gen, c, regroup l) = true →
-    isAscii g = true → isAscii c = true → (∀ e ∈ regroup l, isAscii e.1 = true) →
+    (∀ e ∈ regroup l, isAscii e.1 = true) →
     ∃ frame, encodeOffsetCommitRequest cid corr (some g) gen (some c) ps = .ok frame
       ∧ Monitor.C04.offsetCommit cid corr (some g) gen (some c) ps frame = .ok
 
@@ -154,7 +154,7 @@ def C04_metadata_total_stmt : Prop :=
 
 def C04_group_requests_total_stmt : Prop :=
   (∀ (cid g : Bytes) (corr : Int),
-    (Spec.request Spec.findCoordinatorRequest).valid (hdr 10 0 corr cid, g) = true → isAscii g = true →
+    (Spec.request Spec.findCoordinatorRequest).valid (hdr 10 0 corr cid, g) = true →
     ∃ frame, encodeConsumerMetadataRequest cid corr (some g) = .ok frame
       ∧ Monitor.C04.findCoordinator cid corr (some g) frame = .ok)
   ∧ (∀ (cid g m : Bytes) (corr gen : Int),
